@@ -1,4 +1,4 @@
-from . import rules_hash, rules_c02, inputs
+from . import rules_hash, rules_c02, rules_rep, rules_c09, inputs
 from .check_c01 import QUICK_SQUARES
 from spec import geometry as G
 
@@ -29,13 +29,19 @@ def run(ctx, prog, facts, tier):
     rules_hash.check_transposition(ctx, prog, I)
     rules_hash.check_eq_reads_hash_only(ctx, prog, I)
     rules_hash.check_parser_start_state(ctx, prog)
+    # the start-of-turn hashes recorded for repetition detection: what is appended to the history is the new state hash
+    ctx.rule('C05.3', 'every turn-ending successor stores one and the same value as state hash, turn-start hash and new history '
+                      'head; the history tail is the old history, or empty only under the captured condition')
+    rules_rep.check_history(ctx, prog, I)
+    # hashing during setup: each placement adds its own term; the last one switches to the play-phase form (C09.3 hash clauses)
+    rules_c09.check_place_transitions(ctx, prog, I)
     rules_hash.check_h1(ctx, I, 'from_piece_board / move / pass / transposition')
     ctx.floor('C08 move-hash modes', ctx.analysed.get('hash_move_modes', 0), 100)
     ctx.exhaustive = tier != 'quick'
     ctx.assumptions += [
         'NOT decided: equality of concrete 64-bit values on every path; it follows from the term inventory only if the gates are '
         'the exact bits, which the dependency-level domain does not prove (operator polarity inside a gate is out of reach)',
-        'placement hashing (place_piece) is covered by C09']
+        'placement hashing (place_piece) is decided by the C09.3 clauses, included here']
     return ('XOR-linear abstract domain (HashForm) over symbolic table terms: term inventory of from_piece_board for all sides and '
             'steps, of the incremental update for every sampled (square, direction) x side x step against the row-wise '
             'difference of old and new board, of pass and of the push/pull status terms; equality reads only the hash.',
